@@ -16,7 +16,7 @@ PROPS = {
             'the header transport of Status::details (grpc-status-details-bin, base64) is the contract of unit status (C04 / C12), linked by lemma_c20_through_headers; tonic::Status::{with_details_and_metadata, details} are callee contracts here (A-tonic-status-02)',
             'retry delays outside the protobuf range (more than 315,576,000,000 s) and google.protobuf.Duration values that are negative or not normalised are outside the statement: the clauses about RetryInfo are conditional on the range',
             'with_error_details_vec* take `impl IntoIterator<Item = ErrorDetail>`; they are verified for Vec<ErrorDetail> (R12 specialisation)',
-            'the ErrorDetails builder API (with_* / set_* / add_* / has_* in error_details/mod.rs), the std_messages constructors (new / with_* / add_* / is_empty, including RetryInfo::new clamping to MAX_RETRY_DELAY) are not under contract: the property is about a given ErrorDetails / Vec<ErrorDetail> value',
+            'the ErrorDetails builder API (with_* / set_* / add_* / has_* in error_details/mod.rs), the std_messages constructors (new / with_* / add_*) are not under contract, except RetryInfo::new (its result is within the protobuf range and an in-range delay is kept): the property is about a given ErrorDetails / Vec<ErrorDetail> value',
             'the four `From<..> for ..` impls that map a Vec through `.into_iter().map(Into::into).collect()` are verified as free-function copies of the same body text; the impl itself carries the proved clauses as an assumed contract (A-cut-03, R26)',
         ]),
     'C19': dict(
@@ -35,7 +35,7 @@ PROPS = {
             'decided here: the hand-off of status / trailers / metadata at both ends (encode, decode, status units) AND the call-shape glue: client Grpc::{prepare_request, create_response, streaming, client_streaming, unary, server_streaming} and server Grpc::{map_request_unary, map_request_streaming, map_response, unary, server_streaming, client_streaming, streaming} as sequential async code (Verus treats .await as a call)',
             'the glue is proved RELATIVE to assumed interfaces: the transport (GrpcService: ghost log of requests + the answer its future resolves to), the handler (respond(): its answer is a function of handler and request), the Codec, and the Streaming stream API (try_next / trailers as functions nxt / trl of the stream state, A-tonic-decode-02); Streaming::message / Streaming::trailers are under contract in unit decode (message() is what the REAL poll_next answers when driven to readiness: await of poll_fn modelled as a poll-until-ready loop, A-future-04), but the glue units still see the stream through nxt / trl, not through those contracts',
             'the HTTP/2 transport between the two ends (hyper/h2): that the client http::Response carries the status line, headers, DATA and trailers the server produced, under any fragmentation and interleaving; task scheduling (the property quantifies over readiness interleavings: covered only per poll call by the ghost-history contracts of encode / decode)',
-            'Grpc::apply_compression_config (for loop over a const slice with a reference pattern) and the generated code that picks the call shape are not under contract',
+            'the generated code that picks the call shape (tonic-build output) is not under contract; server Grpc::apply_compression_config is (unit serverglue, G7, with the reference pattern of its for loop rewritten by R22)',
         ]),
     'C16': dict(
         units=['webserver', 'webservice', 'webtrailers'], level='proof',
@@ -82,7 +82,7 @@ PROPS = {
         units=['compression', 'decode', 'encode', 'clientglue', 'serverglue'], kani=['cfg_is_enabled', 'cfg_is_empty', 'cfg_enable', 'cfg_pop'], level='proof',
         not_covered=[
             'EnabledCompressionEncodings::{enable,pop,is_enabled,is_empty} use iterator adapters Verus rejects: their contracts are discharged by the complete Kani harnesses kani::cfg_* on the real code (all slot states x all encodings) and linked in the Verus units as callee contracts; into_accept_encoding_header_value (intractable for CBMC: 46 GB) is proved in the Verus unit with `self.inner.into_iter().flatten()` routed through an assumed std contract (A-core-21: the Some entries in slot order)',
-            'which of the two configured sets (send vs accept) is consulted where is proved in units clientglue / serverglue; Grpc::apply_compression_config (server, a for loop over a const slice) is not under contract',
+            'which of the two configured sets (send vs accept) is consulted where is proved in units clientglue / serverglue; server Grpc::apply_compression_config is under contract there as well (G7: both sets gain exactly the encodings of the given configuration)',
             'completeness of the response-encoding picker (an offered and enabled encoding IS chosen) is not demanded by the statement and not proved (string-literal match gives arm=>equal only)',
             'str::split / str::trim semantics are the uninterpreted comma_tokens (A-std-split-01)',
         ]),
